@@ -342,6 +342,7 @@ public:
     if (iA.getNumberOfRows() != nrA || iA.getNumberOfColumns() != ncA) throw DimensionException("MatrixTools::mult(). Real and imaginary parts of A have different sizes.", iA.getNumberOfRows(), nrA);
     if (iB.getNumberOfRows() != nrB || iB.getNumberOfColumns() != ncB) throw DimensionException("MatrixTools::mult(). Real and imaginary parts of B have different sizes.", iB.getNumberOfRows(), nrB);
     O.resize(nrA, ncB);
+    iO.resize(nrA, ncB);
     Scalar ab, iaib, iab, aib;
 
     for (size_t i = 0; i < nrA; i++)
